@@ -242,9 +242,9 @@ def handle (d : DriverState) (line : String) : DriverState × String :=
   | "resource" => ({ d with resources := (str 1, str 2) :: d.resources }, "ok")
   | "rimuc" =>
     let split (s : Str) (sep : Char) : List Str := if s.isEmpty then [] else splitChar s sep
-    let argv := split (str 1) (Char.ofNat 31)
-    let files := (split (str 4) (Char.ofNat 31)).map fun e =>
-      match splitChar e (Char.ofNat 30) with
+    let argv := split (str 1) (Char.ofNat 0xE01F)
+    let files := (split (str 4) (Char.ofNat 0xE01F)).map fun e =>
+      match splitChar e (Char.ofNat 0xE01E) with
       | [n, c] => (n, c)
       | n :: _ => (n, [])
       | [] => ([], [])
